@@ -246,7 +246,9 @@ def detect_missing_tx_field_validations(
             # point of callsub block. return point is the next instruction after the callsub
             # instruction.
             (callsub_block, _) = current_call_stack[-1]
-            assert callsub_block is not None
+            if callsub_block is None:
+                # retsub is executed without a callsub. The execution fails at runtime.
+                return
             return_point = callsub_block.sub_return_point
             if return_point is not None:
                 search_paths(
